@@ -203,13 +203,16 @@ impl<K: Clone + Hash, V: Clone, S: Clone + BuildHasher> Clone for HashMap<K, V, 
 
     fn clone_from(&mut self, source: &Self) {
         // NOTE: Since we may re-hash leftovers on clone, we need the new hash builder straight
-        // away, unlike hashbrown which can get away with just cloning after. We don't want to
-        // change self.hash_builder yet though, in case the cloning panics.
-        let hash_builder = source.hash_builder.clone();
+        // away, unlike hashbrown which can get away with just cloning after. It also has to be
+        // installed before the table is touched: if re-hashing a leftover element panics, the
+        // elements cloned so far stay in the table, placed according to the source's hasher. (If
+        // cloning the main table panics the table is left empty, which suits any hasher.)
+        self.hash_builder = source.hash_builder.clone();
 
-        self.table
-            .clone_from_with_hasher(&source.table, make_hasher::<K, _, V, S>(&hash_builder));
-        self.hash_builder = hash_builder;
+        self.table.clone_from_with_hasher(
+            &source.table,
+            make_hasher::<K, _, V, S>(&self.hash_builder),
+        );
     }
 }
 
